@@ -394,6 +394,7 @@ static void runKind(Ctx& c, Rng& rng, const char* kind, unsigned n, const char* 
 	typedef FamTraits<Key, HashBucket, fast, logStart> Traits;
 	typedef typename std::conditional<isMap, MapAd<Key, Traits>, SetAd<Key, Traits>>::type Ad;
 	Cfg cfg{ kind, n, elem, fast, isMap, logStart, ff ? ff() : n };
+	if (!fast) runs *= 3;	// slow-hash traits keep hash bits next to the items and reuse them on growth (C12): more histories
 	for (unsigned run = 0; run < runs; ++run) {
 		unsigned fam = (unsigned)rng.below(6);
 		static const unsigned ranges[] = { 12, 40, 150, 600 };
@@ -418,7 +419,7 @@ int main(int argc, char** argv)
 {
 	Ctx c = parseArgs(argc, argv);
 	Rng rng(c.seed * 0x1000 + 1 + VF_FAULTS * 10 + VF_PART * 100);
-	unsigned runs = c.thorough ? 6 : 2;
+	unsigned runs = c.thorough ? 36 : 10;	// a run costs ~30 ms; the compile dominates the check
 	typedef ElemT<16, 8> E16;
 	typedef ElemT<40, 16> E40;
 #if VF_PART == 0
